@@ -269,6 +269,11 @@ func runProperty(p *Prog, prop string, loadS float64) int {
 				fmt.Printf("ERROR variant %s of property %s is not detected by rule(s) %v\n", r.Name, prop, r.Rules)
 				machineryBroken = true
 			}
+			if r.Outcome == "FALSE-ALARM" {
+				// a behaviour-preserving refactoring is reported: the rule is wrong, not the tree
+				fmt.Printf("ERROR refactoring %s raises a false alarm for property %s: %v\n", r.Name, prop, r.Fired)
+				machineryBroken = true
+			}
 		}
 		qv := map[string]bool{}
 		for _, in := range all {
